@@ -32,6 +32,8 @@ def extend(register, PENDING):
       "The real console_scripts.main() runs in a forked child with every environment input under the simulator's control: argument bytes as the OS hands them over (surrogateescape) or binary stdin delivered in seeded short reads through a real BufferedReader, stdout as pipe or tty (text layer and buffer over one recorded raw end, optional short writes), os.isatty from a simulated fd table, --output into an in-memory file system, exit status as the interpreter would compute it. The artefact (PNG via Pillow, SVG via the XML parser with shape/size checks per factory and drawer, half-block ASCII art) is turned into a matrix and decoded by an independent reader: recovered bytes must equal the input, recovered level the requested one, segment structure the requested threshold; --output bytes must equal stdout bytes for the same options; unknown factory/drawer/level must exit non-zero with nothing written anywhere.",
       "Trusts: sim/isoread.py (independent reader incl. RS syndrome check, validated at development time on all 160 version/level pairs), Pillow's PNG decoder, the stdlib XML parser, and that in-process main() with substituted sys.stdin/stdout/argv/os.isatty/open behaves as the installed console script (thorough tier cross-checks a sample against real subprocesses). Sampling, not enumeration.",
       "DESIGN.md 4.2")
-    PENDING.update({
-        "C19": "claimed by design (DESIGN.md 4.1); engine threadsim not yet committed",
-    })
+    register("C19", "threadsim",
+      "deterministic thread-schedule simulation: real caller threads baton-passed one at a time at sys.settrace line/opcode events and at every access to the two process-wide dictionaries; seeded strategies (access-targeted, location-uniform, PCT, random walk, stall) compiled to explicit pre-emption lists; results compared with solo runs in a pristine process; sequential canary afterwards",
+      "2-4 real threads each run their own seeded program (construct, add_data, make, get_matrix, print_ascii, image render with SVG factories over-weighted) on private objects. Exactly one thread holds the baton; the seeded scheduler - not the OS or the GIL - decides at which line/opcode event or shared-dictionary access it yields and who continues, so one seed is one exactly repeatable interleaving, stored as (priority order, pre-emption list) and replayed without any PRNG. Every value each thread observed (symbol, matrix, text, image bytes or exception) must equal what the same program produces alone in a pristine process; afterwards brand-new objects for every version touched and one render per SVG factory, run sequentially in the aged process, must equal the pristine reference (leak check without naming internals). Sampling of schedules, not enumeration.",
+      "Trusts: CPython with the GIL; pre-emption grain = line events in qrcode/** and xml/etree/ElementTree.py, opcode events in makeImpl / svg image __init__ / register_namespace, and accesses to precomputed_qr_blanks and ElementTree._namespace_map (rebound to recording dict subclasses); Pillow, pypng, decimal and re internals run as atomic steps; free-threaded builds out of scope; differential oracle (the library alone in a pristine process).",
+      "DESIGN.md 4.1")
